@@ -37,17 +37,21 @@ func VerifC16Notify(waiters, mode, withCancel int) {
 			}
 		})
 	}
-	verif_go("broadcaster", func() {
-		n.L.Lock()
-		state = 1
-		if mode == 0 {
+	if mode == 0 {
+		verif_go("broadcaster", func() {
+			n.L.Lock()
+			state = 1
 			n.Broadcast()
 			n.L.Unlock()
-		} else {
+		})
+	} else {
+		verif_go("broadcaster", func() {
+			n.L.Lock()
+			state = 1
 			n.L.Unlock()
 			n.Broadcast()
-		}
-	})
+		})
+	}
 	if withCancel == 1 {
 		verif_go("canceller", func() { verif_cancel(ctx) })
 	}
